@@ -454,6 +454,7 @@ pub fn registry() -> Registry {
         e!("T26", S6),
         e!("T27", UnsizedList<UnsizedMap<u8, S1x>>),
         e!("T28", List<PackedValue<u64>, u64>),
+        e!("T29", UnsizedList<List<u8, u32>>),
         ("A01", Box::new(AcctEntry::<Acct1>::new()) as Box<dyn DynType>),
         ("A02", Box::new(AcctEntry::<Acct2>::new()) as Box<dyn DynType>),
     ]
